@@ -29,10 +29,12 @@ m["confirmed"]["result"] = conf
 m["detection"]["result"] = mut
 m["detection"]["caught"] = bool(re.search(r"exit=1 violations=[1-9]", mut))
 json.dump(m, open(d + "/meta.json", "w"), indent=1, ensure_ascii=False)
+with_part = conf.split("demo_with_change:", 1)[-1].split("demo_without_change:", 1)[0]
+without_part = conf.split("demo_without_change:", 1)[-1]
 ok = ("apply: ok" in conf and "1627 passed" in conf and "1697 passed" in conf
-      and re.search(r"demo_with_change:[^\n]*[1-9]\d* failed", conf)
-      and re.search(r"demo_without_change:[^\n]*passed", conf)
-      and not re.search(r"demo_without_change:[^\n]*[1-9]\d* failed", conf))
+      and re.search(r"[1-9]\d* failed", with_part)
+      and re.search(r"\d+ passed", without_part)
+      and not re.search(r"[1-9]\d* failed", without_part))
 print("SEED", m["id"], "confirmed" if ok else "NOT-CONFIRMED", "caught" if m["detection"]["caught"] else "NOT-CAUGHT")
 PY
 done
